@@ -350,17 +350,27 @@ def loaded(d):
     return d
 
 
-def comparable(d):
-    """the model is claimed faithful on this document (see Verify.v header):
-    no '$' in step names / depends entries (add_step substitutes the
-    environment into them), every non-ASCII code point is non-alphanumeric
-    (the model's \\w is ASCII), numbers are short decimals, ints are moderate."""
+def h_word(d):
+    """hypothesis H_word: every non-ASCII code point of the document is
+    non-alphanumeric (the model's \\w -- Json.is_word -- is ASCII; Python's also
+    accepts the other Unicode alphanumerics).  Outside it the Gallina schema
+    interpreter (pattern ^\\$\\(\\w+\\)$) and `wordy` are not the code's: such
+    documents only get the Python-side part of the monitor."""
     for s in all_strings(d):
         for c in s:
             if ord(c) >= 128 and (c.isalnum() or c == "_"):
                 return False
             if 0xD800 <= ord(c) <= 0xDFFF:
                 return False
+    return True
+
+
+def comparable(d):
+    """the model is claimed faithful on this document (see Verify.v header):
+    H_word, and no '$' in step names / depends entries (add_step substitutes
+    the environment into them)."""
+    if not h_word(d):
+        return False
     ld = loaded(d)
     if isinstance(ld, dict):
         st = ld.get("study")
@@ -1250,16 +1260,27 @@ def build_cases(ck, impl, rng, tier):
 
 def evaluate(ck, impl, cases, tag="c13"):
     """run the implementation and Coq on (tag, doc) cases; returns per-case
-    records and the failing indices"""
+    records, the literals (None outside H_word) and the failing indices"""
     recs, lits = [], []
     for tg, doc in cases:
         obs, detail, bits = observe(impl, doc)
         cmp = comparable(doc)
-        recs.append({"tag": tg, "doc": doc, "obs": obs, "detail": detail, "bits": bits, "cmp": cmp})
+        hw = h_word(doc)
+        recs.append({"tag": tg, "doc": doc, "obs": obs, "detail": detail, "bits": bits, "cmp": cmp, "hw": hw})
         lits.append("(%s, %s, (%s, %s))" % (g_jv(doc), g_result(obs),
-                                          common.g_list([common.g_bool(b) for b in bits]), common.g_bool(cmp)))
-    bad, errs = common.coq_failing(tag, HEADER, "jv * result * (list bool * bool)", "case_ok", lits,
-                                   shard=250, timeout=1500)
+                                          common.g_list([common.g_bool(b) for b in bits]), common.g_bool(cmp))
+                    if hw else None)
+    idx = [i for i, l in enumerate(lits) if l is not None]
+    bad, errs = common.coq_failing(tag, HEADER, "jv * result * (list bool * bool)", "case_ok",
+                                   [lits[i] for i in idx], shard=250, timeout=1500)
+    bad = [idx[i] for i in bad]
+    # outside H_word: the Python-evaluable part of the monitor only
+    for i, r in enumerate(recs):
+        if not r["hw"] and not python_monitor(r["doc"], r["obs"]) and not (
+                r["obs"][0] == "A" and has_dup_keys(r["doc"])):
+            ck.violation("%s: implementation %s (%s) -- internal error or changed step list (document outside "
+                         "H_word, Python-side monitor)" % (r["tag"], r["obs"][0], r["detail"]),
+                         case_json(r["tag"], r["doc"], r["obs"], r["detail"]))
     return recs, lits, bad, errs
 
 
@@ -1351,6 +1372,7 @@ def run(ck):
     ck.cov["input_distribution"] = dict(sorted(hist.items()))
     ck.cov["impl_outcomes"] = dict(outcome)
     ck.cov["compared_with_model"] = sum(1 for r in recs if r["cmp"])
+    ck.cov["outside_H_word_python_monitor_only"] = sum(1 for r in recs if not r["hw"])
     ck.cov["staged"] = impl.stage_runs
     ck.cov["interpreter_cases"] = len(ic)
     ck.cov["priority_enum_from_schema"] = prios
@@ -1391,6 +1413,11 @@ def replay(ck, path):
     print("document      :", to_yaml(doc)[:2000])
     print("implementation:", obs, detail)
     print("jsonschema    :", bits)
+    if not h_word(doc):
+        ok = python_monitor(doc, obs) or (obs[0] == "A" and has_dup_keys(doc))
+        print("outside H_word (non-ASCII alphanumerics): Python-side monitor only")
+        print("verdict       :", "ok" if ok else "FAIL")
+        return 0 if ok else 1
     print("model (verify_and_build, (C13_ok on impl outcome, K5 signature), schema bits):")
     print(explain(lit))
     bad, errs = common.coq_failing("c13_replay", HEADER, "jv * result * (list bool * bool)", "case_ok", [lit])
